@@ -418,7 +418,10 @@ def st_models(fields):
             r.tup.fs[r.idx] = new
         else:
             r.cell.v = new
-        return m_ret(st, Tup([]))
+        # Vec::clear sets the length to 0 and then runs the elements' destructors (caller code)
+        s2 = st.fork()
+        s2.events.append(("caller", "<T as Drop>::drop in Vec::clear"))
+        return [(st, Tup([]), "return", ""), (s2, None, "unwind", "caller code <T as Drop>::drop in Vec::clear")]
 
     def reserve(ex, st, callee, args, ty):
         cur = val_of(args[0])
